@@ -2,7 +2,7 @@
    witnesses of the two places where the unchanged code does NOT keep data and grid in lock-step. *)
 From Coq Require Import ZArith QArith Qround Qabs Qcanon List Lia Lqa Bool.
 From DV Require Import Base.Field Base.FieldFacts Base.LinAlg Base.QcInst Model.Enums Model.Homog Model.Grid Model.Sampler Model.SamplerQc
-  Gen.GridT Model.GridDerive Model.GridDeriveQc Model.ImageOps Model.ImageOpsQc Proofs.C05Qc Proofs.C01Lattice.
+  Gen.GridT Model.GridDerive Model.GridDeriveQc Model.ImageOps Model.ImageOpsQc Proofs.QcFacts Proofs.C01Lattice.
 Import ListNotations.
 
 Lemma ceilQc_int (z : Z) : ceilQc (of_Z (K:=QcF) z) = z.
@@ -23,18 +23,22 @@ Definition ex_ramp (g : dgrid (K:=QcF)) (J : list Z) : Qc :=
   fadd (K:=QcF) (dot (K:=QcF) [q 2 1; q 3 1] (d_itw (K:=QcF) ceilQc 2 g (map (of_Z (K:=QcF)) J))) (q 1 1).
 Definition ex_img : qimg := mkI (K:=QcF) [4; 3]%Z (ex_ramp ex_grid).
 
-(* resample to spacing (6/5, 1): the rounded new shape equals the old one, core.image.grid_resample returns the
-   data unchanged, the grid's spacing changes -- the returned values are NOT the ramp on the returned grid *)
-Lemma resample_same_shape_refuted :
+(* resample to spacing (6/5, 1): the rounded new shape equals the old one and the spacing changes.  On the repaired code
+   (core.image.grid_resample returns its input only when the resampled GRID equals the input grid) the data is resampled:
+   the returned values are the ramp on the returned grid at every index inside the original field of view, and they are
+   NOT the input values (before the repair this case returned the input unchanged: -5 instead of -28/5 at index (0,0)) *)
+Definition in_hull (g g' : dgrid (K:=QcF)) (J : list Z) : bool :=
+  forallb (fun p => Qle_bool 0 (this (fst p)) && Qle_bool (this (fst p)) (inject_Z (snd p - 1)))
+          (combine (gen_pts (K:=QcF) 2 WORLD GRID (nK (K:=QcF) ceilQc g) (sp g) (ce g) (di g) (d_itw (K:=QcF) ceilQc 2 g' (map (of_Z (K:=QcF)) J)))
+                   (nZ (K:=QcF) ceilQc g)).
+Lemma resample_same_shape_lockstep :
   let op := OResample (K:=QcF) [q 6 5; q 1 1] 1 in
   let g' := apply_op (K:=QcF) ceilQc floorQc leQc 2 op ex_grid in
   let out := apply_data 2 (IGrid op (q 0 1) []) ex_grid g' ex_img in
-  ishape out = nZ (K:=QcF) ceilQc g' /\
-  exists J, in_box (ishape out) J = true /\ ival out J <> ex_ramp g' J.
-Proof.
-  intros op g' out. split; [vm_compute; reflexivity|].
-  exists [0; 0]%Z. split; [vm_compute; reflexivity|]. apply qeqb_neq. vm_compute. reflexivity.
-Qed.
+  ishape out = nZ (K:=QcF) ceilQc g' /\ ishape out = ishape ex_img /\
+  forallb (fun J => negb (in_hull ex_grid g' J) || qeqb (ival out J) (ex_ramp g' J)) (indices (ishape out)) = true /\
+  existsb (fun J => in_hull ex_grid g' J && negb (qeqb (ival out J) (ival ex_img J))) (indices (ishape out)) = true.
+Proof. intros op g' out. repeat split; vm_compute; reflexivity. Qed.
 
 (* downsample a 5 x 4 image once: the grid keeps the fractional size 5/2 (3 samples), the data has 3 samples; upsample:
    the grid returns to 5 samples, the data path doubles the tensor shape to 6 -- shapes disagree *)
